@@ -1,40 +1,25 @@
 /-
 C07 — negation witnesses: concrete inputs on which the *full-strength* statement is false of the model
 (and, replayed by the harness, of the implementation).  Each is listed in known_findings.txt.
+
+Six former witnesses were repaired in /repo and are now regression `example`s next to the theorems that became
+full strength:
+  var-self-cycle-recursion          (2bffab3)  Props/C07Var.lean     `resolve_var_terminates`, `var_cycle_uses_fallback`
+  var-inherit-on-root-typeerror     (582f36b)  Props/C07.lean        `pending_valid_as_literal`, `select_total`
+  var-shorthand-partially-applied   (f9155ce)  Props/C07Expanders    `pending_expander`, `pending_expander_all_or_nothing`
+  flex-float-zero-as-basis          (6a44d73)  Props/C07Expanders    `flex_unitless_zero` (+ example)
+  font-face-src-format-indexerror   (be7a07b)  Props/C07Descriptors  example after `descriptors_only_propagate`
+  counter-style-system-empty-indexerror (d71ddd0) Props/C07Descriptors `descriptor_empty_dropped`
 -/
 import WpModel.Model.Declarations
 import WpModel.Model.VarSubst
 import WpModel.Model.PendingC07
 import WpModel.Model.ExpandersC07
 import WpModel.Model.DescriptorsC07
+import WpModel.Model.NumericC07
 
 namespace Wp.Witness.C07
 open Wp Wp.Decl Wp.Var
-
-/-! ### F7 — `--a: var(--a)`: no cycle guard, the recursion never ends -/
-
-def cycEnv : Env := fun n => if n = "__a" then [.fn "var" "var" [.ident "--a"]] else []
-def cycTok : Tk := .fn "var" "var" [.ident "--a"]
-
-/-- Whatever the depth allowed to the interpreter, resolving `var(--a)` under `--a: var(--a)` exhausts it:
-`resolve_var` raises `RecursionError` (finding `var-self-cycle-recursion`; also C02). -/
-theorem var_self_cycle : ∀ fuel, resolveVar cycEnv fuel cycTok = .error .recursion
-  | 0 => rfl
-  | fuel + 1 => by
-    have ih := var_self_cycle fuel
-    have hc : checkVar cycTok = true := by decide
-    have hp : parseArgs [Tk.ident "--a"] false = some [Tk.ident "--a"] := by rfl
-    have hd : dashToUnderscore "--a" = "__a" := by decide
-    have he : cycEnv "__a" = [cycTok] := by simp [cycEnv, cycTok]
-    have hb : ("var" != "var") = false := by decide
-    unfold cycTok at ih hc he ⊢
-    simp only [resolveVar, hc, Bool.not_true, Bool.false_eq_true, if_false, hb, hp, hd, he,
-      List.isEmpty_cons, List.mapM_cons, valueStep, ih]
-    rfl
-
-/-- The same token has a perfectly good meaning as soon as the custom property is not cyclic. -/
-example : (match resolveVar (fun n => if n = "__a" then [.ident "red"] else []) 3 cycTok with
-    | .ok (some [.ident "red"]) => true | _ => false) = true := by decide
 
 /-! ### `var(--f, Arial, sans-serif)`: the commas of a fallback are dropped -/
 
@@ -46,56 +31,35 @@ def fbTok : Tk :=
 name `Arial sans-serif`), textual substitution keeps it (finding `var-fallback-commas-dropped`): the fallback of
 `var_subst_partial` has to be read as `codeFallback`, not as text. -/
 theorem var_fallback_commas_dropped :
-    (match resolveVar (fun _ => []) 5 fbTok with
+    (match resolveVar (fun _ => []) [] 5 fbTok with
       | .ok (some [.ident "Arial", .ident "sans-serif"]) => true | _ => false) = true ∧
     (match subst (fun _ => []) 5 fbTok with
       | some [.ident "Arial", .comma, .ident "sans-serif"] => true | _ => false) = true := by
   decide
 
-/-! ### `html{--a:inherit; width:var(--a)}`: `inherit` out of a var() on the root element -/
+/-! ### `flex-grow: -1`: a negative flex factor is not dropped -/
 
-/-- On the root element the literal `width: inherit` is the initial value, but the same keyword coming out of
-a `var()` reaches `parent_style[key]` with no parent: `TypeError` (finding `var-inherit-on-root-typeerror`), so
-`C07.pending_valid_as_literal` states its `inherit` clause with a parent only. -/
-theorem var_inherit_on_root :
-    Pending.select (β := Nat) "width" false .inheritKw = .ok .initial ∧
-    Pending.select (β := Nat) "width" false (.pending .inheritKw) = .error .typeError := by decide
+/-- css-flexbox-1 §7.2/7.3: "`<number [0,∞]>` … negative values are invalid".  The validator of `flex-grow` /
+`flex-shrink` is `if token.type == 'number': return token.value`: `flex-grow: -1` is accepted (and overrides an
+earlier valid `flex-grow: 2`) instead of being ignored (finding `flex-negative-factor-accepted`); so the range
+statement of `C07.flex_factor_partial` stops at "the value is the number written". -/
+theorem flex_negative_factor_accepted :
+    Num07.validate "flex-grow" [{ intValue := some (-1), keyword := none, ltok := .number (-1) }]
+      = some (some (.num (-1))) ∧
+    Num07.validate "flex-shrink" [{ intValue := none, keyword := none, ltok := .number (-1 / 2) }]
+      = some (some (.num (-1 / 2))) := by
+  decide +kernel
 
-/-! ### `margin: var(--a)` with `--a: 7px red`: a shorthand invalid after substitution is applied in part -/
+/-! ### `image-resolution: 0dppx`: a non-positive resolution is accepted, and zero aborts rendering -/
 
-/-- `expand_four_sides` on `7px red` yields `margin-top: 7px` and then raises `InvalidValues` on `red`; the
-literal declaration `margin: 7px red` is dropped as a whole, but `PendingExpander.validate` returns at the first
-match, so `margin-top` gets 7px while the other three sides fall back (finding
-`var-shorthand-partially-applied`): `C07.pending_expander_partial` needs its hypothesis `gen.ends = none`. -/
-theorem pending_expander_partial_application :
-    pendingExpanderValidate "margin" { items := [("margin-top", "7px")], ends := some .invalid } "margin-top"
-      = .ok "7px" ∧
-    pendingExpanderValidate (β := String) "margin" { items := [("margin-top", "7px")], ends := some .invalid }
-      "margin-right" = .error .invalid := by decide
-
-/-! ### `@font-face { font-family: x; src: format("woff") }`: a descriptor validator that crashes -/
-
-/-- The `src` validator raises `IndexError` on `format("woff")` (finding `font-face-src-format-indexerror`; the
-`system` validator does the same on an empty value: `counter-style-system-empty-indexerror`): the descriptor
-funnel propagates it and the valid `font-family` before it is lost with the whole stylesheet, so "no malformed
-stylesheet can abort rendering" needs validators that only raise `InvalidValues`
-(`C07.descriptors_only_propagate`). -/
-theorem descriptor_funnel_aborts_on_validator_crash :
-    let v : String → Desc → R (Option String) := fun name _ =>
-      if name = "src" then .error .indexError else .ok (some "x")
-    let d (n : String) (i : Nat) : Desc := { kind := .declaration, name := n, important := false, id := i }
-    preprocessDescriptors "font-face" v [d "font-family" 0] = .ok [("font_family", "x")] ∧
-    preprocessDescriptors "font-face" v [d "font-family" 0, d "src" 1] = .error .indexError := by decide
-
-/-! ### `flex: 0.0`: a unitless zero that is not written as an integer -/
-
-/-- `expand_flex` recognises the unitless zero by `token.int_value == 0`; for `0.0` (or `1e-999`) `int_value` is
-`None`, the token is a valid `flex-basis` (`get_length` accepts any zero number) and is taken as the basis: the
-shorthand means `1 1 0` where `flex: 0` means `0 1 0px` (finding `flex-float-zero-as-basis`). -/
-theorem flex_float_zero_is_basis :
-    (flexRaw false (fun q => "n:" ++ showRat q) "0px" "auto" [⟨false, true, some 0, "0.0"⟩]).items
-      = [("-grow", "n:1"), ("-shrink", "n:1"), ("-basis", "0.0")] ∧
-    (flexRaw false (fun q => "n:" ++ showRat q) "0px" "auto" [⟨true, true, some 0, "0"⟩]).items
-      = [("-grow", "n:0"), ("-shrink", "n:1"), ("-basis", "0px")] := by decide +kernel
+/-- css-images-3 §5.1 / css-values: the `<resolution>` of `image-resolution` must be positive (zero and negative
+values are invalid).  `get_resolution` accepts any dimension in dppx / dpi / dpcm: `image-resolution: 0dppx` is kept
+and `RasterImage.get_intrinsic_size` divides by it — `ZeroDivisionError` aborts the rendering of any document with
+a raster `<img>` (finding `image-resolution-zero-division`; also C02, C13); `-1dppx` gives negative intrinsic sizes. -/
+theorem image_resolution_zero_division :
+    Num07.getResolution (.dimension 0 "dppx" "dppx") = some 0 ∧
+    Num07.rasterIntrinsicSize 20 10 0 = .error (.zeroDivision "get_intrinsic_size") ∧
+    Num07.getResolution (.dimension (-1) "dppx" "dppx") = some (-1) := by
+  refine ⟨by decide +kernel, by decide +kernel, by decide +kernel⟩
 
 end Wp.Witness.C07
